@@ -449,6 +449,15 @@ def run(tier, pid=PID, only_field_events=False):
                     if r_ is not None:
                         obl.ex_by_label["%s[%dx%d]" % (label, nv, nf)] = r_
         replay_failures(obl, out, pid)
+        if pid == PID:
+            # where the first two levels (per-trait argument, shared argument) of every entry come from
+            from . import e3_extras
+            o2 = e3_extras.safe(e3_extras.entry_args_provenance, out, PID, 2 if tier == "quick" else 3)
+            obl.total += o2.total
+            obl.discharged += o2.discharged
+            obl.solver_time += o2.solver_time
+            obl.functions.update(o2.functions)
+            obl.smt2 += o2.smt2[:4]
         if tier == "thorough":
             e3.cross_check_solvers(obl, out)
     except mx.Inconclusive as e:
